@@ -19,6 +19,7 @@ Tol_S_mie            == -6000   \* Lorenz-Mie S vs textbook, x < 50 (single-prec
 Tol_S_mie_big        == -4000   \* x >= 50: default continued-fraction tolerance (measured 1e-5)
 Tol_S_pyseries       == -5500   \* pure-Python series, documented ~1e-6
 Tol_mie_multisphere_default == -2000  \* default cluster-solver truncation qeps1=1e-5 (measured up to 3.9e-3 at x=23)
+Tol_field_invariance == -8000    \* the same sphere seen from equivalent set-ups (raised with the detector; turned with the polarisation)
 Tol_mie_multisphere_default_dense == -1500  \* relative index 2.5, x ~ 17..23 near field: measured 4e-5 .. 1.4e-2 (resonances)
 Tol_mie_multisphere_tight_dense   == -3500  \* same class, tight settings: measured 4e-7 .. 9e-5
 Tol_mie_multisphere_tight   == -4000  \* with eps=1e-12, qeps1=1e-9, qeps2=1e-12 (measured <= 9.2e-6)
@@ -31,6 +32,7 @@ Tol_cs_integral      == -5000   \* angular integrals by Gauss-Legendre quadratur
 Tol_cs_rayleigh      == -3500   \* Rayleigh formula at x ~ 1e-3: O(x^2) corrections
 Tol_cs_textbook      == -6000   \* four numbers vs independent series
 Tol_cs_cluster       == -4000   \* clusters, default truncation: |C_abs|/C_ext for real indices, optical theorem (measured 1e-5)
+Tol_cs_cluster_integral == -3000 \* clusters: sca and g against a 40 x 64 product quadrature of |S e|^2 (calibrating)
 Tol_cs_multisphere   == -3500   \* one-sphere cluster vs Mie (measured <= 1.3e-6 .. default truncation)
 Tol_lens_interp      == -8000   \* MieLens interpolation on/off/check, window/degree variants (calibrating)
 Tol_lens_quad        == -5000   \* MieLens default quadrature vs refined: "does not change" is judged at the same 1e-5 as the
